@@ -1,4 +1,5 @@
 import ExecModel.Res
+import ExecModel.Lts.Sys
 import ExecModel.Props.C16
 /-!
   C10 — Per-call resources are honoured, scoped to that call, never silently dropped.
@@ -84,6 +85,15 @@ theorem block_rejects : submitBlock false = .error "ValueError" ∧ submitBlock 
 /-- slots used by the accounting are those of the effective cores (times the per-call threads) -/
 theorem slots_eq (ex pc : RD) : slots ex pc = ((effective ex pc).cores.getD 1) * pc.threads.getD 1 := by
   simp [slots, effective]
+
+/-- **The two models of the slot computation agree**: `Res.slots` (this file: what the dispatcher
+    accounts for a call, C10) is `Sys.slotsOf` (the transition system of C07 / C19) for the same
+    executor-level cores and per-call request — the resource ceiling is proved about the slots the
+    merge rule produces. -/
+theorem slots_agree_with_sys (ex pc : RD) (c : Sys.Cfg) (h : c.execCores = execCores ex) :
+    slots ex pc = Sys.slotsOf c { cores := pc.cores, threads := pc.threads } := by
+  simp only [slots, mergeCores, Sys.slotsOf, h]
+  cases pc.cores <;> simp
 
 /-! Non-vacuity: three calls with different requests on one executor-level dictionary. -/
 example :
